@@ -324,7 +324,35 @@ class Ctx:
                 continue
             for n in names:
                 self.obligation(f"theorem:{mod}.{n}", "proof", False, "not checked: build failed: " + first_coq_error(log))
+        if self.tier == "thorough" and os.environ.get("VERIF_NO_COQCHK") != "1":
+            all_ok = self._coqchk([t for t in targets if Path(t).stem in good_targets or ok]) and all_ok
         return all_ok
+
+    def _coqchk(self, targets: list[str], timeout: int = 1500) -> bool:
+        """Thorough tier: re-check the compiled property / tie files and everything they depend on with the
+        independent checker and read its context summary (axioms, type-in-type, unguarded fixpoints, assumed positivity)."""
+        mods = ["VGI." + t[:-3].replace("/", ".") for t in targets if t.endswith(".vo")]
+        if not mods:
+            return True
+        try:
+            r = subprocess.run(["coqchk", "-silent", "-o", "-R", ".", "VGI", *mods], cwd=self.bdir, capture_output=True, text=True, timeout=timeout)
+            out = r.stdout + r.stderr
+            rc = r.returncode
+        except subprocess.TimeoutExpired:
+            out, rc = "coqchk timed out", 124
+        summary = out[out.find("CONTEXT SUMMARY"):] if "CONTEXT SUMMARY" in out else out[-600:]
+        clean = lambda label: re.search(re.escape(label) + r"\s*<none>", summary) is not None  # noqa: E731
+        axioms_none = clean("* Axioms:")
+        extra: list[str] = []
+        if not axioms_none:
+            m = re.search(r"\* Axioms:(.*?)\n\s*\n\* ", summary, flags=re.S)
+            names = re.findall(r"^\s*(\S+)\s*$", m.group(1), flags=re.M) if m else ["?"]
+            extra = [a for a in names if a not in STDLIB_AXIOM_WHITELIST and a.split(".")[-1] not in STDLIB_AXIOM_WHITELIST]
+        good = (rc == 0 and not extra and clean("relying on type-in-type:") and clean("relying on unsafe (co)fixpoints:")
+                and clean("whose positivity is assumed:"))
+        self.axioms["coqchk -o " + " ".join(mods)] = re.sub(r"\s+", " ", summary)[:400]
+        self.obligation("coqchk:" + ",".join(Path(t).stem for t in targets), "proof", good, "" if good else summary[-600:])
+        return good
 
     def _assumptions(self, theorems: dict[str, list[str]]) -> bool:
         lines = ['Set Printing Width 100000.']
